@@ -478,7 +478,8 @@ Section Interp.
             | _ => LStuck "conversion of a value that is not a string or []byte"
             end))
       | GEEmptyBytes => k [LVStr []] w
-      | GELen _ | GEIndexOk _ _ | GEMakeMap => LStuck "an expression that the loader lookup has no meaning for"
+      | GELen _ | GEIndexOk _ _ | GEMakeMap | GEAdd _ _ | GEGt _ _
+      | GETypeAssertOk _ _ | GEAppend _ _ | GEEmptySlice _ | GERem _ _ => LStuck "an expression that the loader lookup has no meaning for"
       | GEUnknown src => LNotUnderstood src
       end.
 
@@ -558,7 +559,7 @@ Section Interp.
             | _ => LStuck "range over a value that is not set.loaders"
             end))
       | GSResults _ => LStuck "the named results are declared by the first statement of a body only"
-      | GSMapStore _ _ _ | GSFieldStore _ _ _ | GSDelete _ _ | GSDefer _ =>
+      | GSMapStore _ _ _ | GSFieldStore _ _ _ | GSDelete _ _ | GSDefer _ | GSBreak | GSIncField _ _ =>
           LStuck "a statement that the loader lookup has no meaning for"
       | GSUnknown src => LNotUnderstood src
       end.
